@@ -8,10 +8,11 @@ MAX = "ffffffffffffffff"
 MAX1 = "fffffffffffffffe"
 ARITY = {"new": 2, "mbuf": 2, "addref": 2, "unref": 1, "clone": 2, "conv": 2, "rinit": 3, "rfini": 2, "rcopy": 0,
          "aclone": 2, "aclear": 1, "detach": 1, "detachf": 1, "setin": 2, "defer": 2, "force": 2, "unforce": 0,
-         "xnew": 1, "xassign": 2, "xcopy": 2, "xmove": 2, "xdetach": 2, "xset": 2, "xdrop": 1,
+         "xnew": 1, "xassign": 2, "xcopy": 2, "xmove": 2, "xdetach": 2, "xset": 2, "xdrop": 1, "xgen": 1, "xclone": 2,
          "set": 1, "raise": 0, "lower": 0}
-MKINDS = ["hcnt", "huni", "gen", "cfg", "top", "reply", "raw", "stream"]      # created by "new" in a metatype slot
-COUNTED = ["hcnt", "reply", "raw", "stream"]
+MKINDS = ["hcnt", "huni", "gen", "cfg", "top", "reply", "raw", "stream", "iterf", "itern"]      # created by "new" in a metatype slot
+COUNTED = ["hcnt", "reply", "raw", "stream", "iterf", "itern"]
+CLONEABLE = ["huni", "gen", "cfg", "mbuf", "itern"]
 BKINDS = ["buf", "hbuf"]
 C_CLEAN = ["unforce"] + ["unref %d" % i for i in range(6)] + ["aclear %d" % i for i in (6, 7, 8)] + ["unref %d" % i for i in (9, 10, 11)]
 X_CLEAN = ["unforce"] + ["xdrop %d" % i for i in (12, 13, 14)] + ["unref %d" % i for i in (15, 16, 17)]
@@ -23,6 +24,10 @@ def ccase(ops):
 
 def xcase(ops):
     return " ".join(["x"] + list(ops) + X_CLEAN)
+
+
+def gcase(ops):
+    return " ".join(["g"] + list(ops) + X_CLEAN)
 
 
 def mk(kind, d, a=6):
@@ -109,7 +114,29 @@ class C15(DiffProperty):
                  "every history, invariant counter = handle multiset + differential correspondence check")
     assumptions = ["malloc succeeds", "single thread", "uintptr_t has 64 bits"]
 
-    # ---- two harnesses: C (families c, r) and C++ (families x, y)
+    # family g (metatype::generic): while the class releases a malloc() block with `delete this`
+    # (docs/C15_generic_delete.diff) probe() reports that as KNOWN-FINDING on every run and switches ASan's
+    # allocator-family check off for family g only; once repaired the family runs under the full harness_env
+    generic_env = harness_env
+
+    def probe(self):
+        import tempfile
+        try:
+            hx = build_harness("c15_cxx.cpp", ["mpt++", "mptcore"])
+        except Exception:
+            return      # reported by evaluate()
+        wd = tempfile.mkdtemp(prefix="c15probe_")
+        o, _ = run_cases(hx, ["p0 q"], wd, "probe", env=self.harness_env)
+        tok = o.get("I", {}).get("p0")
+        if tok != ["D"]:
+            self.generic_env = dict(self.harness_env,
+                                    ASAN_OPTIONS=self.harness_env["ASAN_OPTIONS"] + ":alloc_dealloc_mismatch=0")
+            print("KNOWN-FINDING: property=C15 generic_delete_mismatch mpt++/metatype_generic.cpp: metatype::generic::unref() "
+                  "releases the malloc() block of create() with `delete this` (ASan alloc-dealloc-mismatch, observed %s); "
+                  "family g therefore runs with alloc_dealloc_mismatch=0; proposed patch docs/C15_generic_delete.diff; "
+                  "replay: g xgen 12 xdrop 12" % (tok,))
+
+    # ---- two harnesses: C (families c, r) and C++ (families x, y, g)
     def evaluate(self, cases, workdir, tagsuffix=""):
         hc = build_harness("c15_refs.c", ["mptcore", "mptplot", "mptio"])
         hx = build_harness("c15_cxx.cpp", ["mpt++", "mptcore"])
@@ -117,10 +144,11 @@ class C15(DiffProperty):
         ided = ["c%d %s" % (i, c) for i, c in enumerate(cases)]
         fam = lambda l: l.split(None, 2)[1]
         I, errs = {}, []
-        for exe, fams, tag in ((hc, ("c", "r"), "implc"), (hx, ("x", "y"), "implx")):
+        for exe, fams, tag, env in ((hc, ("c", "r"), "implc", self.harness_env), (hx, ("x", "y"), "implx", self.harness_env),
+                                    (hx, ("g",), "implg", self.generic_env)):
             sub = [l for l in ided if fam(l) in fams]
             if sub:
-                o, e = run_cases(exe, sub, workdir, tag + tagsuffix, env=self.harness_env, args=self.harness_args)
+                o, e = run_cases(exe, sub, workdir, tag + tagsuffix, env=env, args=self.harness_args)
                 I.update(o.get("I", {}))
                 errs += e
         M, e2 = run_cases(mx, ided, workdir, "model" + tagsuffix)
@@ -147,7 +175,7 @@ class C15(DiffProperty):
     def classify(self, case):
         hdr, ops = self.split(case)
         cl = {"family:" + hdr[0]}
-        nclean = len(C_CLEAN) if hdr[0] == "c" else len(X_CLEAN) if hdr[0] == "x" else 0
+        nclean = len(C_CLEAN) if hdr[0] == "c" else len(X_CLEAN) if hdr[0] in ("x", "g") else 0
         body = ops[:len(ops) - nclean] if nclean and len(ops) >= nclean else ops
         for o in body:
             cl.add("op:" + o[0])
@@ -157,6 +185,8 @@ class C15(DiffProperty):
                 cl.add("kind:mbuf")
             if o[0] == "xnew":
                 cl.add("kind:cxx")
+            if o[0] == "xgen":
+                cl.add("kind:xgen")
             if o[0] == "force":
                 cl.add("force:" + ("max" if o[2] == MAX else "max-1" if o[2] == MAX1 else "small"))
             if o[0] == "set":
@@ -266,6 +296,8 @@ class C15(DiffProperty):
                           ["xdetach 12 15", "addref 15 16", "addref 15 17"], ["xassign 12 13", "xcopy 12 13", "xassign 13 13"]):
                 cs.append(xcase(["xnew 12", "force 12 " + v] + share + ["xdrop 12", "unforce"]))
                 cs.append(xcase(["xnew 12", "xassign 12 14", "force 12 " + v] + share + ["xdrop 12", "xdrop 14"]))
+                cs.append(gcase(["xgen 12", "force 12 " + v] + share + ["xclone 12 16", "xdrop 12", "unforce"]))
+                cs.append(gcase(["xgen 12", "xassign 12 14", "force 12 " + v] + share + ["xclone 14 17", "xdrop 12", "xdrop 14"]))
         return cs
 
     def cxx_cases(self, depth):
@@ -276,6 +308,11 @@ class C15(DiffProperty):
         for n in range(1, depth + 1):
             for seq in itertools.product(a, repeat=n):
                 cs.append(xcase(["xnew 12"] + list(seq)))
+        # metatype::generic held by reference<metatype>: the same operations plus clone
+        g = [o.replace("xnew", "xgen") for o in a] + ["xclone 12 15", "xclone 13 16"]
+        for n in range(1, depth + 1):
+            for seq in itertools.product(g, repeat=n):
+                cs.append(gcase(["xgen 12"] + list(seq)))
         return cs
 
     def counter_cases(self, depth):
@@ -323,7 +360,7 @@ class C15(DiffProperty):
             elif r < 0.50 and ms and me:
                 s, d = rng.choice(ms), rng.choice(me)
                 ops.append("clone %d %d" % (s, d))
-                if filled[s] in ("huni", "gen", "cfg", "mbuf"):
+                if filled[s] in CLONEABLE:
                     filled[d] = filled[s]
             elif r < 0.68:
                 s, d = anym(), anym()
@@ -375,14 +412,17 @@ class C15(DiffProperty):
                 ops.append("unforce")
         return ccase(ops)
 
-    def random_x(self, rng):
-        ops = ["xnew 12"]
+    def random_x(self, rng, fam="x"):
+        new = "xnew" if fam == "x" else "xgen"
+        ops = [new + " 12"]
         for _ in range(rng.randrange(3, 13)):
             r = rng.random()
             R = lambda: rng.choice((12, 13, 14))
             P = lambda: rng.choice((15, 16, 17))
-            if r < 0.12:
-                ops.append("xnew %d" % R())
+            if fam == "g" and rng.random() < 0.1:
+                ops.append("xclone %d %d" % (R(), P()))
+            elif r < 0.12:
+                ops.append("%s %d" % (new, R()))
             elif r < 0.32:
                 ops.append("xassign %d %d" % (R(), R()))
             elif r < 0.44:
@@ -403,7 +443,7 @@ class C15(DiffProperty):
                 ops.append("force %d %s" % (R(), rng.choice(["1", "2", "3", MAX1, MAX1, MAX, MAX])))
             else:
                 ops.append("unforce")
-        return xcase(ops)
+        return xcase(ops) if fam == "x" else gcase(ops)
 
     def generate(self, rng, tier):
         quick = tier == "quick"
@@ -420,6 +460,7 @@ class C15(DiffProperty):
         nc, nx = (2000, 500) if quick else (50000, 10000)
         cases += [self.random_c(rng) for _ in range(nc)]
         cases += [self.random_x(rng) for _ in range(nx)]
+        cases += [self.random_x(rng, "g") for _ in range(nx)]
         return cases
 
 
